@@ -112,7 +112,7 @@ def lemma_vacuity_probes(woven, info):
 
 WRAPPER_SHARED = ['00_error.vspec', '02_types.vspec', '09_resolvers.vspec']
 WRAPPER_CFG = ['--cfg', 'feature="use-curve25519"', '--cfg', 'feature="use-chacha20poly1305"', '--cfg', 'feature="use-xchacha20poly1305"', '--cfg', 'feature="use-aes-gcm"',
-               '--cfg', 'feature="use-sha2"', '--cfg', 'feature="use-blake2"']
+               '--cfg', 'feature="use-sha2"', '--cfg', 'feature="use-blake2"', '--cfg', 'feature="p256"']
 
 
 def build_wrappers(vacuity=False):
@@ -681,8 +681,9 @@ def check_property(pid, tier, res=None, vres=None, quiet=False):
     # evidence
     fn_list = sorted(fns_mine)
     ms = sum(res['funcs'][f]['ms'] for f in fn_list if f in res['funcs'])
-    n_ob = len(mine)
-    n_dis = n_ob - len({k for k in failed})
+    kf_obs = sorted({oid for oid, _ in known_hits})
+    n_ob = len(mine) - len(kf_obs)          # obligations claimed = all tagged obligations minus those listed as known findings
+    n_dis = n_ob - len({k for k in failed if ('%s#%s' % k) not in kf_obs})
     samples = []
     for k, v in sorted(mine.items(), key=lambda kv: str(kv[0]))[:12]:
         samples.append({'obligation': '%s#%s' % k, 'kind': v['kind'], 'clause': v['texts'][:2], 'status': 'FAILED' if k in failed else 'discharged'})
@@ -707,6 +708,7 @@ def check_property(pid, tier, res=None, vres=None, quiet=False):
             'result_cache_hit': res['cache_hit'],
             'whole_file_verified_functions': res['verified'], 'whole_file_failed_functions': res['nerrors'],
             'axioms_used': axs,
+            'known_findings_excluded_from_the_claim': [{'obligation': oid, 'what': what} for oid, what in sorted(set(known_hits))],
             'vacuity_probe': vac_note or 'not run in this tier',
             'replay_probe': ({'ran': True, 'tests': probe.get('tests'), 'findings_for_this_property': pf, 'wall_s': probe.get('wall_s'), 'cache_hit': probe.get('cache_hit'), 'error': probe.get('error')}
                              if probe else {'ran': False, 'why': 'the proof is clean for this property; the counterexample search runs only on failure/undecided or in the thorough tier'}),
